@@ -65,7 +65,10 @@ type Options struct {
 	// AfterWrite is called (without locks held) after a client Write has
 	// delivered its bytes and before it returns.
 	AfterWrite func(data []byte)
-	Addr       string
+	// BeforeDeadline is called (without locks held) before a client-side
+	// SetReadDeadline is applied, with its argument.
+	BeforeDeadline func(t time.Time)
+	Addr           string
 }
 
 // Pair is a connected pair of conns.
@@ -343,6 +346,9 @@ func (c *Conn) Close() error {
 
 func (c *Conn) setDeadline(kind string, t time.Time) error {
 	idx, f, sticky := c.beginOp(kind)
+	if c.isClient && kind == "setreaddeadline" && c.p.opts.BeforeDeadline != nil {
+		c.p.opts.BeforeDeadline(t)
+	}
 	p := c.p
 	p.mu.Lock()
 	defer p.mu.Unlock()
